@@ -667,3 +667,24 @@ Example ex_stale :
   let s := run (init 0 0) [NewModel (Some "A"); Close 0; NewModel (Some "A")] in
   ~ registered s 0 /\ step s (Close 0) = (s, Raised EMissing).
 Proof. vm_compute. split; [intros [H|[]]; discriminate|reflexivity]. Qed.
+
+(** close on a state with three registered models, one of them a backup *)
+Example ex_close :
+  let s := run (init 0 0) [NewModel (Some "A"); NewModel (Some "A"); NewModel None] in
+  registered s 0 /\ map fst (reg (fst (step s (Close 0)))) = ["A"; "Model1"]
+  /\ snd (step s (Close 0)) = Done.
+Proof. vm_compute. repeat split. left. reflexivity. Qed.
+
+(** get_next has to skip two taken names: fuel 3+1 is used *)
+Example ex_fuel_skip :
+  let s := run (init 0 1) [NewModel (Some "A"); NewModel (Some "A_BAK2"); NewModel (Some "A_BAK3")] in
+  map fst (reg (fst (step s (NewModel (Some "A"))))) = ["A_BAK2"; "A_BAK3"; "A_BAK4"; "A"]
+  /\ get_next 2 "A" "_BAK" 1 (reg s) = None
+  /\ get_next 3 "A" "_BAK" 1 (reg s) = Some ("A_BAK4", 4).
+Proof. vm_compute. repeat split. Qed.
+
+(** a failing read_model consumes an automatic name and resets the current model only *)
+Example ex_read_rejected :
+  let s := run (init 0 0) [NewModel (Some "A"); Write 0 0] in
+  step s (Read 0 (Some "1x")) = (set_cur None (set_cnt_model 1 s), Raised EInvalid).
+Proof. vm_compute. reflexivity. Qed.
